@@ -204,6 +204,7 @@ func vPureFeeCases(out *vWriter, master *vrng, n int) {
 }
 
 type vNegCase struct {
+	witness        string
 	taproot        bool
 	idealO, idealR int64
 	capO, capR     int64 // cfg.MaxFee, 0 = default 3x
@@ -296,7 +297,7 @@ func vRunNeg(t *testing.T, out *vWriter, r *vrng, nc vNegCase) {
 	row := map[string]any{"k": "neg", "tap": nc.taproot, "io": nc.idealO,
 		"ir": nc.idealR, "co": nc.capO, "cr": nc.capR, "afford": afford,
 		"fuel": nc.fuel, "openerShuts": nc.openerShuts,
-		"anchors": ct.HasAnchors()}
+		"anchors": ct.HasAnchors(), "witness": nc.witness}
 
 	trace := []int64{}
 	errClass := 0
@@ -375,6 +376,12 @@ func TestVerifNegotiate(t *testing.T) {
 	grid := []int64{100, 101, 109, 110, 111, 129, 130, 131, 143, 144, 200,
 		253, 1000, 1299, 1300, 1301, 2000, 5000, 12345, 100000, 3000000}
 	small := []int64{0, 1, 2, 5, 9, 10, 11, 19, 20, 50, 99}
+	// the witness of C17_ratchet_stuck_refuted, replayed on the real code:
+	// ideal fees 1 and 5 sat, cap 1000 sat.
+	vRunNeg(t, out, master.fork(5_999_999), vNegCase{witness: "stuck",
+		idealO: 1, idealR: 5, capO: 1000, capR: 1000, openerSat: -1,
+		openerShuts: true, fuel: 60})
+
 	n := vCases(110, 3000)
 	for i := 0; i < n; i++ {
 		r := master.fork(uint64(6_000_000 + i))
